@@ -327,7 +327,7 @@ def _pagination(ix, driver, i, op, res):
     q = {}
     if op is not None and op["op"] == "Paginate" and not op["token"]:
         st = ix.pagstate = {"id": op["id"], "ps": list(op["ps"]), "sofar": [], "through": None, "cthrough": None}
-    if op is not None and op["op"] == "Clear":
+    if op is not None and op["op"] in ("Clear", "Recreate"):
         st = ix.pagstate = None
     if st is not None:
         wp, e = guarded(lambda: [(p["lru"], bool(p["crawled"])) for p in t.get_webentity_pages(st["id"], st["ps"])])
@@ -359,7 +359,7 @@ def _paglinks(ix, driver, i, op, res):
         st = ix.plstate = {"key": (op["id"], list(op["ps"]), op["int"], op["out"]), "sofar": [], "quiet": True}
     elif op is not None and st is not None and op["op"] not in READ_ONLY_OPS:
         st["quiet"] = False
-    if op is not None and op["op"] == "Clear":
+    if op is not None and op["op"] in ("Clear", "Recreate"):
         st = ix.plstate = None
     if st is not None and op is not None and op["op"] == "PagLinks" and \
             (op["id"], list(op["ps"]), op["int"], op["out"]) == st["key"]:
@@ -531,7 +531,7 @@ def answers_digest(ix, driver, salt):
 
 def _life(ix, driver, i, op, res):
     q = {"ans": answers_digest(ix, driver, i)}
-    if op is not None and op.get("op") == "Clear":
+    if op is not None and op.get("op") in ("Clear", "Recreate"):
         fresh = impl.Index(ix.backend, op["def"], op["rules"])
         try:
             a = impl.observe(fresh)
